@@ -44,6 +44,21 @@ let parse_p toks =
       last_n = Z.of_string last_n; c_o = Z.of_string c_o; c_n = Z.of_string c_n; eo = pairs e; en = pairs n }
   | _ -> failwith "bad p line"
 
+(* Conv.predfail prints only the first 200 failures of a run, known classes and unclassified ones
+   together; a long run has thousands of known-class failures.  So that an unclassified failure is
+   never cut off, each known class is reported through Conv.predfail at most [kf_cap] times per run
+   and counted in the histogram ("predfail-more:<pred>:<kf>") after that. *)
+let kf_cap = 12
+let kf_seen : (string, int) Hashtbl.t = Hashtbl.create 16
+let predfail ~case ~step ~pred ~kf ~detail =
+  if kf = "none" then Conv.predfail ~case ~step ~pred ~kf ~detail
+  else begin
+    let n = (try Hashtbl.find kf_seen kf with Not_found -> 0) in
+    Hashtbl.replace kf_seen kf (n + 1);
+    if n < kf_cap then Conv.predfail ~case ~step ~pred ~kf ~detail
+    else bump ("predfail-more:" ^ pred ^ ":" ^ kf)
+  end
+
 let class_code = function "ok" -> 0 | "err" -> 1 | "panic" -> 2 | _ -> 3
 let is_zero z = (z = BinNums.Z0)
 
